@@ -2,6 +2,7 @@
 // next hops the real router computes from them, under a simulated multi-node placement (simmpi: blocks of ppn ranks per node).
 //   L <rank> : comm_size node_size local_size node_id local_id | local_ranks | strided_ranks | rank_to_node | rank_to_local
 //   H <rank> <scheme 0|1|2> : next_hop(0) ... next_hop(size-1)
+//   HD <rank> <scheme the communicator selected from YGM_COMM_ROUTING> : the communicator's own router().next_hop(0) ...
 #include <ygm/comm.hpp>
 #include <cstdio>
 #include <string>
@@ -28,6 +29,12 @@ int main(int argc, char **argv) {
     }
     puts(s.c_str());
   }
+  // the scheme selected through YGM_COMM_ROUTING, as the communicator itself routes
+  s = "HD " + std::to_string(me) + " " + std::to_string((int)world.config.routing) + " :";
+  for (int d = 0; d < world.size(); ++d) {
+    try { s += " " + std::to_string(world.router().next_hop(d)); } catch (...) { s += " E"; }
+  }
+  puts(s.c_str());
   fflush(stdout);
   return 0;
 }
